@@ -48,8 +48,13 @@ def strategy(tier):
                               max_size=16 if big else 8),
             "rest": histories(tier, max_ops=12 if big else 6, batches=True, aborts=True,
                               near_weight=4),
+            "exc": st.integers(0, 2),
         }
     )
+
+
+class _BaseAbort(BaseException):
+    """Leaves the block by an exception that is not an Exception subclass."""
 
 
 def _run_exit(case, exit_kind, exit_arg, info):
@@ -81,7 +86,9 @@ def _run_exit(case, exit_kind, exit_arg, info):
 
     measured_w = None
     if aborted:
-        cm_exit("squash_changes-exit", cm, Abort("injected"))
+        kind = case.get("exc", 0)
+        exc = [Abort("injected"), _BaseAbort("injected"), KeyboardInterrupt("injected")][kind]
+        cm_exit("squash_changes-exit", cm, exc)
         outcome = "aborted"
     elif exit_kind == "fail":
         db.arm(exit_arg)
